@@ -196,6 +196,8 @@ def z3_templates(rng):
         return constructed_template(rng)
     if rng.random() < 0.2:
         return binder_before_variable_template(rng)
+    if rng.random() < 0.25:
+        return true_lemma_clash_template(rng)
     return rng.choice(pool)
 
 
@@ -235,6 +237,29 @@ def binder_before_variable_template(rng):
         goal = conn('implies', prem, concl)
     CONSTRUCTED[goal] = {'env': {'P': 'everywhere true', 'Q4': 'true of element 0 only', 'R4': 'true of element 1 only'},
                          'tv_size': 2, 'by_construction': True}
+    return goal
+
+
+def true_lemma_clash_template(rng):
+    """a TRUE lemma about of_nat under a nat quantifier, used as a premise, whose bound name is also a free variable of
+    the goal (so the binder has to be renamed), with a conclusion that is false for n = 1 (or outright false):
+    invalid by construction.  A translation that loses track of the renamed binder turns the lemma into nonsense."""
+    nm = rng.choice(['n', 'm'])
+    free = ('var', nm, NAT)
+    on = lambda t: app(c('of_nat', S.fun(NAT, REAL)), t)
+    k = ('bound', 0)
+    lemmas = [A.rel('equals', B, A.rel('less', REAL, on(k), A.num(REAL, 1)), A.rel('equals', NAT, k, A.num(NAT, 0))),
+              A.rel('equals', B, A.rel('equals', REAL, on(k), A.num(REAL, 0)), A.rel('equals', NAT, k, A.num(NAT, 0))),
+              A.rel('greater_eq', REAL, on(k), A.num(REAL, 0)),
+              A.rel('greater', REAL, A.binop('plus', REAL, on(k), A.num(REAL, 1)), A.num(REAL, 0)),
+              conn('implies', A.rel('greater', NAT, k, A.num(NAT, 0)), A.rel('greater_eq', REAL, on(k), A.num(REAL, 1)))]
+    prem = quant('all', nm, NAT, rng.choice(lemmas))
+    concl = rng.choice([A.rel('equals', NAT, free, A.num(NAT, 0)), A.rel('equals', NAT, A.binop('plus', NAT, free, A.num(NAT, 1)), A.num(NAT, 1)),
+                        A.rel('equals', REAL, A.num(REAL, 1), A.num(REAL, 0)), A.rel('less', REAL, on(free), A.num(REAL, 1))])
+    goal = conn('implies', prem, concl)
+    if rng.random() < 0.3:
+        goal = conn('implies', A.rel('greater_eq', NAT, free, A.num(NAT, 0)), goal)
+    CONSTRUCTED[goal] = {'env': {nm: '1'}, 'by_construction': True, 'note': 'the premise is a true statement about all naturals'}
     return goal
 
 
